@@ -71,6 +71,10 @@ func changeRequestToTarget(req *http.Request, httpsDefault bool) error {
 	}
 
 	targetUrl.Path = req.URL.Path
+	// Keep the client's own encoding of the path ("/a%2Fb" must not become "/a/b")
+	// and an explicitly empty query ("/p?").
+	targetUrl.RawPath = req.URL.RawPath
+	targetUrl.ForceQuery = req.URL.ForceQuery
 	targetUrl.RawQuery = req.URL.RawQuery
 	targetUrl.Fragment = req.URL.Fragment
 	req.URL = targetUrl
